@@ -107,7 +107,13 @@ pub fn eval(case: &str) -> Out {
                 else if h.version < 0x8000_0000 && bh != sha256d::Hash::hash(&{ let mut o = Vec::new(); ref_header(&mut o, &h, false); o }).to_byte_array() { fail = Some("blockhash-not-consensus-hash|block hash is not the double-SHA256 of the consensus serialization (reference encoder) of the header without solution / signblock witness".to_string()); }
                 else if h.is_dynafed() != (sc[3] & 0x80 != 0) { fail = Some("dynafed-bit|dynafed marker bit".to_string()); }
                 else {
+                    // Block::block_hash is a further view of the same hash: asked for the header and then, on the same thread, for each edited header, it must
+                    // be that header's hash (seeded C02-r6-4: a one-entry memo keyed on some of the header fields)
+                    let via_block = |hh: &BlockHeader| elements::Block { header: hh.clone(), txdata: vec![] }.block_hash();
+                    if via_block(&h) != h.block_hash() { fail = Some("block-view-differs|Block::block_hash differs from the hash of its header".to_string()); }
                     for (witness_only, name, h2) in header_edits(&h) {
+                        if via_block(&h2) != h2.block_hash() && fail.is_none() { fail = Some(format!("block-view-differs|after changing {}, Block::block_hash is not the hash of the block's own header", name)); }
+                        if fail.is_some() { break; }
                         let same = h2.block_hash() == h.block_hash();
                         if witness_only && !same { fail = Some(format!("witness-changes-blockhash|changing only {} changed the block hash", name)); break; }
                         if !witness_only && same { fail = Some(format!("nonwitness-keeps-blockhash|changing {} did not change the block hash", name)); break; }
